@@ -161,7 +161,9 @@ func runReconf(a []string) (result string) {
 		}
 		second := one(envs[1], a[1], nA, fA, instA, nil)
 		ref := one(envs[1], a[4], nB, fB, fresh, nil)
-		return "ok " + first + " | " + second + " | " + ref
+		// instances are independent of each other: one built now with A's original configuration behaves as A did at first
+		again := one(envs[0], a[1], nA, fA, ctorA(nA, fA), nil)
+		return "ok " + first + " | " + second + " | " + ref + " | " + again
 	}
 	sA, e := reportStrategy(a[1], nA, fA)
 	if sA == nil {
@@ -181,7 +183,10 @@ func runReconf(a []string) (result string) {
 	}
 	second := one(envs[1], a[1], nA, fA, nil, sA)
 	ref := one(envs[1], a[4], nB, fB, nil, fresh)
-	return "ok " + first + " | " + second + " | " + ref
+	// instances are independent of each other: one built now with A's original configuration behaves as A did at first
+	sA2, _ := reportStrategy(a[1], nA, fA)
+	again := one(envs[0], a[1], nA, fA, nil, sA2)
+	return "ok " + first + " | " + second + " | " + ref + " | " + again
 }
 
 func zeroOut(a any) {
